@@ -330,6 +330,11 @@ def check_bioconsert_selection(res: Result, proj: Project, rule: str):
          [5.0, 7.0, 5.0, 5.0], False, [[{"C"}, {"A", "B"}], [{"A"}, {"B"}, {"C"}]]),
         ("single-minimum", [[0, 1, 1], [1, 0, 0]], [[0, 1, 1], [1, 0, 0]], [9.0, 4.0], False, [[{"A", "B"}, {"C"}]]),
         ("at-most-one", [[0, 1, 1], [1, 0, 0], [0, 0, 0]], [[0, 1, 1], [1, 0, 0], [2, 0, 1]], [5.0, 7.0, 5.0], True, None),
+        # a score that is only *close* to the minimum is not a minimum (the property's tolerance is 1e-6)
+        ("near-minimum", [[0, 1, 1], [1, 0, 0], [0, 0, 0]], [[0, 1, 1], [1, 0, 0], [2, 0, 1]],
+         [200008.0, 200009.0, 200010.5], False, [[{"C"}, {"A", "B"}]]),
+        ("near-minimum-at-most-one", [[0, 1, 1], [1, 0, 0], [0, 0, 0]], [[0, 1, 1], [1, 0, 0], [2, 0, 1]],
+         [1.0, 1.000008, 3.0], True, None),
     ]
     for label, dep, fin, scores, amo, want in cases:
         ret, cap, log, ds = bioc.eval_compute(proj, sc, dep, fin, scores, amo)
